@@ -447,9 +447,52 @@ def do_compute(m: Machine, step):
     elif what == "umeyama":
         if b is None or b.model.n != a.model.n:
             return
-        evo.geometry.umeyama_alignment(a.obj.positions_xyz.T,
-                                       b.obj.positions_xyz.T,
-                                       step.get("scale", False))
+        if step.get("contiguous"):
+            # caller-owned C-contiguous float64 arrays (e.g. np.array([xs, ys,
+            # zs])): they are arguments like any other
+            x = np.array(a.obj.positions_xyz.T, order="C", dtype=float)
+            y = np.array(b.obj.positions_xyz.T, order="C", dtype=float)
+            x0, y0 = x.copy(), y.copy()
+            try:
+                evo.geometry.umeyama_alignment(x, y, step.get("scale", False))
+            finally:
+                if not (np.array_equal(x, x0) and np.array_equal(y, y0)):
+                    raise Violation("C16", "array-argument-changed",
+                                    op="compute", fn="umeyama_alignment")
+            m.probe_hit("compute_umeyama_contiguous")
+        else:
+            evo.geometry.umeyama_alignment(a.obj.positions_xyz.T,
+                                           b.obj.positions_xyz.T,
+                                           step.get("scale", False))
+    elif what == "lie":
+        ps = a.obj.poses_se3
+        L = evo.lie
+        i = step.get("i", 0) % len(ps)
+        j = step.get("j", 1) % len(ps)
+        L.se3_inverse(ps[i])
+        L.relative_se3(ps[i], ps[j])
+        L.relative_so3(ps[i][:3, :3], ps[j][:3, :3])
+        L.so3_log(ps[i][:3, :3])
+        L.so3_log_angle(ps[j][:3, :3])
+        L.is_se3(ps[i])
+        L.sim3_inverse(ps[j])
+        L.so3_from_se3(ps[i])
+        m.probe_hit("compute_lie")
+    elif what == "geometry":
+        pos = a.obj.positions_xyz
+        evo.geometry.arc_len(pos)
+        evo.geometry.accumulated_distances(pos)
+    elif what == "filter_pairs":
+        F = evo.filters
+        ps = a.obj.poses_se3
+        F.filter_pairs_by_index(ps, step.get("delta_i", 1),
+                                step.get("all_pairs", False))
+        if len(ps) >= 2:
+            F.filter_pairs_by_path(ps, step.get("dist", 1.0),
+                                   step.get("dist", 1.0) * 0.5,
+                                   step.get("all_pairs", False))
+            F.filter_pairs_by_angle(ps, step.get("angle", 0.5), 0.25, False,
+                                    step.get("all_pairs", False))
     elif what == "write_tum":
         if not a.stamped:
             return
@@ -506,8 +549,22 @@ def do_plot(m, a, b, step):
             try:
                 axs = fig2.subplots(3)
                 P.traj_xyz(axs, a.obj)
+                P.traj_rpy(axs, a.obj)
+                if a.model.n >= 2 and a.model.stamps_strictly_increasing():
+                    P.speeds(fig2.add_subplot(4, 1, 4), a.obj)
             finally:
                 plt.close(fig2)
+        if step.get("colormap") and a.model.n >= 2:
+            fig3 = plt.figure(figsize=(2, 2))
+            try:
+                ax3 = P.prepare_axis(fig3, mode)
+                arr = np.linspace(0.0, 1.0, a.model.n)
+                P.traj_colormap(ax3, a.obj, arr, mode, min_map=0.0,
+                                max_map=1.0)
+                if b is not None and b.model.n == a.model.n:
+                    P.draw_correspondence_edges(ax3, a.obj, b.obj, mode)
+            finally:
+                plt.close(fig3)
         m.probe_hit("compute_plot")
     finally:
         plt.close(fig)
@@ -750,7 +807,8 @@ def gen_step(m: Machine, rng, uid):
                 return {"op": op, "uid": uid, "obj": e.uid, "ref": ref.uid}
             cs = rng.random() < 0.4
             only = rng.random() < 0.2
-            nn = -1 if rng.random() < 0.7 else rng.randint(3, max(3, n))
+            nn = -1 if rng.random() < 0.7 else rng.choice(
+                [1, 2, rng.randint(3, max(3, n)), rng.randint(3, max(3, n))])
             return {"op": op, "uid": uid, "obj": e.uid, "ref": ref.uid,
                     "scale": cs, "only_scale": only, "n": nn}
         if op == "project":
@@ -806,9 +864,10 @@ def gen_step(m: Machine, rng, uid):
         return st
     what = rng.choice(["ape", "rpe", "main_ape", "main_rpe", "id_pairs",
                        "filter_by_motion", "matching_time_indices", "umeyama",
-                       "write_tum", "write_kitti", "to_df", "merge_results",
-                       "result_io", "ape", "rpe"] + (["plot"] if rng.random()
-                                                     < 0.15 else []))
+                       "umeyama", "write_tum", "write_kitti", "to_df",
+                       "merge_results", "result_io", "ape", "rpe", "lie",
+                       "geometry", "filter_pairs"] +
+                      (["plot"] if rng.random() < 0.15 else []))
     st = {"op": "compute", "uid": uid, "what": what, "a": e.uid}
     same = [x for x in alive if x.model.n == n and x is not e]
     if what in ("ape", "rpe", "main_ape", "main_rpe", "umeyama"):
@@ -822,6 +881,14 @@ def gen_step(m: Machine, rng, uid):
             st["unit"] = "f"
             st["all_pairs"] = rng.random() < 0.3
         st["scale"] = rng.random() < 0.5
+        st["contiguous"] = rng.random() < 0.5
+    elif what == "lie":
+        st["i"], st["j"] = rng.randrange(64), rng.randrange(64)
+    elif what == "filter_pairs":
+        st["delta_i"] = rng.choice([1, 2, 3])
+        st["dist"] = rng.choice([0.5, 2.0]) * scale
+        st["angle"] = rng.choice([0.2, 1.0])
+        st["all_pairs"] = rng.random() < 0.3
     elif what == "matching_time_indices":
         cands = [x for x in alive if x.stamped and x is not e]
         if not e.stamped or not cands:
@@ -848,6 +915,9 @@ def gen_step(m: Machine, rng, uid):
         st["mode"] = rng.choice(["xy", "xyz", "xz"])
         st["axes"] = rng.random() < 0.5
         st["xyz"] = rng.random() < 0.5
+        st["colormap"] = rng.random() < 0.5
+        if same:
+            st["b"] = rng.choice(same).uid
     return st
 
 
